@@ -1031,7 +1031,7 @@ mutant("c08-restored-socket-fresh-id", "C08", "C08-D4", "server_socket.go",
 mutant("c08-client-offset-key", "C08", "C08-D5", "client_socket.go",
        '		m["offset"] = lastOffset', '		m["lastOffset"] = lastOffset')
 mutant("c08-recovered-without-pid-compare", "C08", "C08-D5", "client_socket.go",
-       "		if ok && pid == adapter.PrivateSessionID(v.PID) {\n			s.setRecovered(true)", "		if ok && pid != \"\" {\n			s.setRecovered(true)")
+       "	s.setRecovered(ok && v.PID != \"\" && pid == adapter.PrivateSessionID(v.PID))", "	s.setRecovered(ok && v.PID != \"\" && pid != \"\")")
 mutant("c08-persist-any-reason", "C08", "C08-D4", "server_socket.go",
        "		if s.server.connectionStateRecovery.Enabled && recoverableDisconnectReasons.Contains(reason) {", "		if s.server.connectionStateRecovery.Enabled {")
 mutant("c08-filter-by-except-only", "C08", "C08-D3", "adapter/adapter_session_aware.go",
